@@ -121,6 +121,13 @@ def run(ctx):
         if not fam.startswith('trace'):
             pts, vt = gen.variant(rng, pts, 0.2)
             fam += vt
+            if not vt and rng.random() < 0.08:
+                # epoch-like abscissae (x + 2^40) with heights far above the rounding noise of the line m*x + b there, so that the
+                # straightness gate can be judged conclusively from its definition
+                pts = pts.copy()
+                pts[:, 0] += 2.0 ** 40
+                pts[:, 1] = pts[:, 1] * 2.0 ** 12 + 2.0 ** 14
+                fam += '@xoff40-ybig'
         n = len(pts)
         t2 = detfam.MIN_T2[kind] + rng.choice([0, 0, 0, 1, 2, 5])
         if rng.random() < 0.3 and n >= 3:
